@@ -253,13 +253,18 @@ def run(ctx, only_extra=False):
             r = run_experiment(env, exp)
             if r:
                 results.append(r)
+                if any(p["kind"] in ("hang", "escaped") for p in r["problems"]):
+                    break
         n = 0
-        while n < (700 if t else 90):
+        hung = any(p["kind"] in ("hang", "escaped") for r in results for p in r["problems"])
+        while n < (700 if t else 90) and not hung:
             r = run_experiment(env, random_experiment(rng, t))
             if r is None:
                 continue
             n += 1
             results.append(r)
+            if any(p["kind"] in ("hang", "escaped") for p in r["problems"]):
+                break               # a host that never completes: every further experiment would only burn the time budget
     logging.disable(logging.NOTSET)
     for r in results:
         e = r["exp"]
